@@ -103,6 +103,10 @@ fn(SS + "add", cls="ASet", props=["C50"], returns="none",
    ensures=["forall(lambda x: any(call(self.getter, m) is x for m in self.col) == (old(any(call(self.getter, m) is x for m in self.col)) or x is __element))",
             # a value that is already there adds no second member
             "implies(old(any(call(self.getter, m) is __element for m in self.col)), contents(self.col) == old(contents(self.col)))",
+            # the same in terms of members: none leaves, and a member that arrives carries the added value
+            "forall(lambda m: implies(old(m in self.col), m in self.col))",
+            "forall(lambda m: implies((m in self.col) and not old(m in self.col), call(self.getter, m) is __element))",
+            "any(call(self.getter, m) is __element for m in self.col)",
             # distinct members keep carrying distinct values
             INJ],
    requires=[INJ], modifies=["contents(self.col)"])
@@ -133,8 +137,7 @@ fn(A + "_AssociationCollection.__len__#set", cls="ASet", props=["C50"], returns=
 fn(SS + "clear", cls="ASet", props=["C50"], returns="none", ensures=["len(seq(self.col)) == 0", "forall(lambda m: not (m in self.col))"],
    modifies=["contents(self.col)"])
 fn(SS + "__bool__", cls="ASet", props=["C50"], returns="bool", ensures=["result == (len(seq(self.col)) != 0)"], modifies=[])
-# in-place difference with another set: every value goes through discard()  (`|=` through add() stays in the bounded complement: the
-# invariant's equivalence over the view does not discharge within the solver budget)
+# in-place difference with another set: every value goes through discard()
 HV = "any(call(self.getter, m) is x for m in self.col)"
 SK = {"NotImplemented": "singleton"}
 SCAL = {"collections._set_binops_check_strict": "havoc:bool"}
@@ -145,6 +148,20 @@ fn(SS + "__isub__", cls="ASet", props=["C50"], types={"s": "set", "value": "v"},
    ensures=["result is self or result is NotImplemented",
             "implies(result is NotImplemented, contents(self.col) == old(contents(self.col)))",
             "implies(result is self, forall(lambda x: " + HV + " == (old(" + HV + ") and not (x in s))))", INJ],
+   modifies=["contents(self.col)"])
+
+# in-place union: every value goes through add().  The invariant is stated over MEMBERS (none leaves; one that arrived carries a value
+# of the prefix; every value of the prefix is carried) — the equivalence over the view of values, with an existential on both sides,
+# has no usable trigger and stayed `unknown`; from the member form the view equivalence of the postcondition follows at loop exit.
+fn(SS + "__ior__", cls="ASet", props=["C50"], types={"other": "set", "value": "v"}, consts=SK, callees=SCAL,
+   requires=[INJ, "other is not self.col"],
+   invariant={0: ["forall(lambda m: implies(old(m in self.col), m in self.col))",
+                  "forall(lambda m: implies((m in self.col) and not old(m in self.col), call(self.getter, m) in prefix(seq(other), _i)))",
+                  "all(any(call(self.getter, m) is seq(other)[j] for m in self.col) for j in range(_i))", INJ]},
+   loop_modifies={0: ["contents(self.col)"]},
+   ensures=["result is self or result is NotImplemented",
+            "implies(result is NotImplemented, contents(self.col) == old(contents(self.col)))",
+            "implies(result is self, forall(lambda x: " + HV + " == (old(" + HV + ") or (x in other))))", INJ],
    modifies=["contents(self.col)"])
 
 # ---- _AssociationDict.get / setdefault: `self[key]` is the call of __getitem__ (its contract)
